@@ -238,3 +238,52 @@ pub fn op_future(mut handle: ContextHandle, kind: OpKind) -> OpFuture {
 pub fn item_stream(rsp: SubscribeRsp) -> ItemStream {
     Box::pin(rsp.stream())
 }
+
+
+// ---------------------------------------------------------------------------------------------
+// Real threads (C11: identifiers handed out to concurrent callers)
+// ---------------------------------------------------------------------------------------------
+
+/// `n` OS threads, each owning a clone of `handle`, start `k` identifier-taking operations each (QoS 1 publish,
+/// subscribe, unsubscribe in turn): the future is polled exactly once — which allocates the identifier(s), builds the
+/// packet and hands the request to the context — and then dropped. The requests stay queued; the context task writes
+/// them when it is polled next, so the identifiers show up on the wire, all of them outstanding together.
+pub fn start_from_threads(handle: ContextHandle, n: u64, k: u64) {
+    use std::future::Future;
+    use std::sync::{Arc, Barrier};
+    use std::task::{Context as TaskContext, Poll};
+
+    let barrier = Arc::new(Barrier::new(n as usize));
+    let mut joins = Vec::new();
+    for t in 0..n {
+        let mut handle = handle.clone();
+        let barrier = barrier.clone();
+        joins.push(std::thread::spawn(move || {
+            let waker = futures::task::noop_waker();
+            let mut cx = TaskContext::from_waker(&waker);
+            barrier.wait();
+            for i in 0..k {
+                match (i + t) % 3 {
+                    0 => {
+                        let fut = handle.publish(PublishOpts::new().topic_name("a").qos(poster::QoS::AtLeastOnce));
+                        futures::pin_mut!(fut);
+                        let _ = matches!(fut.poll(&mut cx), Poll::Pending);
+                    }
+                    1 => {
+                        let fut = handle.subscribe(SubscribeOpts::new().subscription("a", SubscriptionOpts::new()));
+                        futures::pin_mut!(fut);
+                        let _ = matches!(fut.poll(&mut cx), Poll::Pending);
+                    }
+                    _ => {
+                        let fut = handle.unsubscribe(UnsubscribeOpts::new().topic_filter("a"));
+                        futures::pin_mut!(fut);
+                        let _ = matches!(fut.poll(&mut cx), Poll::Pending);
+                    }
+                }
+            }
+        }));
+    }
+    for j in joins {
+        let _ = j.join();
+    }
+}
